@@ -1126,22 +1126,28 @@ def _assume(expr, value_of):
     return None
 
 
+_FILE_MODES = ("r", "r+", "a", "w", "w-", "x")
+
+
 def _writable_mode(e):
-    """value of a comparison of the file handle's `.mode` with constants, for a file opened writable ('r+' / 'a'): True / False,
-    None when it is not such a comparison or the two writable modes disagree"""
-    if not (isinstance(e, ast.Compare) and len(e.ops) == 1 and isinstance(e.left, ast.Attribute) and e.left.attr == "mode"):
+    """value of a comparison of a mode (the handle's `.mode`, the mode the workspace was asked to open with, ...: any attribute
+    compared with file-mode constants only) for a workspace that is WRITABLE, i.e. whose modes are 'r+' or 'a': True / False; None
+    when it is not such a comparison or the two writable modes disagree"""
+    if not (isinstance(e, ast.Compare) and len(e.ops) == 1 and isinstance(e.left, ast.Attribute)):
         return None
     rhs = e.comparators[0]
     if isinstance(rhs, ast.Constant):
         consts = [rhs.value]
-    elif isinstance(rhs, (ast.List, ast.Tuple, ast.Set)) and all(isinstance(x, ast.Constant) for x in rhs.elts):
+    elif isinstance(rhs, (ast.List, ast.Tuple, ast.Set)) and rhs.elts and all(isinstance(x, ast.Constant) for x in rhs.elts):
         consts = [x.value for x in rhs.elts]
     else:
+        return None
+    if not all(c in _FILE_MODES for c in consts):
         return None
     vals = set()
     for mode in ("r+", "a"):
         op = e.ops[0]
-        if isinstance(op, (ast.In, ast.NotIn)):
+        if isinstance(op, (ast.In, ast.NotIn)) and not isinstance(rhs, ast.Constant):
             v = mode in consts
             vals.add(v if isinstance(op, ast.In) else not v)
         elif isinstance(op, (ast.Eq, ast.NotEq)) and isinstance(rhs, ast.Constant):
@@ -1210,8 +1216,21 @@ def rule_deferred(ctx) -> RuleResult:
     sn = fn.self_name
     F = Fx(fn)
     g = F.g
-    closes = [n for n in g.nodes if F.has_call(n, lambda c: isinstance(c.func, ast.Attribute) and c.func.attr == "close" and not c.args
-                                               and F.xt(c.func.value) in (f"{sn}.geoh5", f"{sn}._geoh5"))]
+    handle = (f"{sn}.geoh5", f"{sn}._geoh5")
+    closes = [n for n in g.nodes if n.kind != "with" and F.has_call(n, lambda c: isinstance(c.func, ast.Attribute) and c.func.attr == "close" and not c.args
+                                                                      and F.xt(c.func.value) in handle)]
+
+    def releases(w):
+        """`with closing(<handle>)` / `with <handle>`: the handle is closed when the block is left"""
+        for it in w.items:
+            e = F.x(it.context_expr)
+            if isinstance(e, ast.Call) and name_of(e.func) == "closing" and len(e.args) == 1:
+                e = e.args[0]
+            if unparse(e) in handle:
+                return True
+        return False
+
+    closes += [n for n in g.nodes if n.kind == "withexit" and isinstance(n.stmt, ast.With) and releases(n.stmt)]
     if not closes:
         raise AnalysisError("C05.DEFERRED: Workspace.close: the call that closes the file handle was not found")
 
@@ -1248,7 +1267,8 @@ def rule_deferred(ctx) -> RuleResult:
                 v = _assume(F.test(n), _writable_mode)
                 if v is not None:
                     succ = [(m, l) for m, l in n.succ if l != ("false" if v else "true")]
-            stack.extend(m for m, _ in succ)
+            # NORMAL paths only: an exception out of a try / with body is not a close() that completed without the sweep
+            stack.extend(m for m, l in succ if l not in ("exc", "raise"))
         return seen
 
     for t, cont in sorted(tables.items()):
